@@ -735,7 +735,7 @@ fn main() {
     }
 
     let threads = ncpu();
-    let cases_per_thread = args.pick(12_000usize, 400_000usize);
+    let cases_per_thread = args.pick(12_000usize, 1_500_000usize);
     let parts = parallel(threads, args.seed, move |ti, mut rng| {
         let mut out = Partial::default();
         let rt = apih::rt();
